@@ -194,3 +194,303 @@ Example loop_example :
   l2s (render (mods_of [(DbCis, 9); (DbTrans, 13)]) 0 17) = "CCCCCCC/C=C\CC/C=C/CCCC"%string /\
   isolated_from 0 [(DbCis, 9); (DbTrans, 13)].
 Proof. split; [vm_compute; reflexivity | cbn; lia]. Qed.
+
+(* ------------------------------------------------------------------ pointwise views of both texts *)
+
+Definition tx (l : list (nat * str)) (j : nat) : str :=
+  match find (fun y => Nat.eqb (fst y) j) l with Some y => snd y | None => [] end.
+
+Definition unit_ (t : nat -> str) (j : nat) : str := t j ++ s2l "C".
+Definition gen (t : nat -> str) (a len : nat) : str := flat_map (unit_ t) (seq a len).
+
+Lemma gen_S t a len : gen t a (S len) = unit_ t a ++ gen t (S a) len.
+Proof. reflexivity. Qed.
+
+Lemma gen_split t a n1 n2 : gen t a (n1 + n2) = gen t a n1 ++ gen t (a + n1) n2.
+Proof. unfold gen. rewrite seq_app, flat_map_app. reflexivity. Qed.
+
+Lemma gen_ext t t' a len : (forall j, a <= j < a + len -> t j = t' j) -> gen t a len = gen t' a len.
+Proof.
+  revert a; induction len as [|len IH]; intros a H; [reflexivity|].
+  rewrite !gen_S. unfold unit_. rewrite (H a) by lia. f_equal. apply IH. intros j Hj. apply H. lia.
+Qed.
+
+Lemma gen_empty t a len : (forall j, a <= j < a + len -> t j = []) -> gen t a len = cs len.
+Proof.
+  revert a; induction len as [|len IH]; intros a H; [reflexivity|].
+  rewrite gen_S. unfold unit_. rewrite (H a) by lia. cbn [app]. unfold cs. cbn [repeat s2l list_ascii_of_string app].
+  f_equal. apply IH. intros j Hj. apply H. lia.
+Qed.
+
+Lemma tx_cons q m l j : tx ((q, m) :: l) j = if Nat.eqb q j then m else tx l j.
+Proof. unfold tx. cbn [find fst]. destruct (Nat.eqb q j); reflexivity. Qed.
+
+Lemma tx_small lo l j : asc_from lo l -> j <= lo -> tx l j = [].
+Proof.
+  revert lo; induction l as [|[p m] r IH]; intros lo Ha Hj; [reflexivity|].
+  destruct Ha as [Hp Hr]. rewrite tx_cons. destruct (Nat.eqb_spec p j) as [->|_]; [lia|].
+  apply (IH p Hr). lia.
+Qed.
+
+Lemma render_pointwise l : forall prev L,
+  asc_from prev l -> (forall y, In y l -> fst y <= L) -> prev <= L ->
+  render l prev L = gen (tx l) (prev + 1) (L - prev).
+Proof.
+  induction l as [|[p m] r IH]; intros prev L Ha Hb Hle; cbn [render].
+  - symmetry. apply gen_empty. intros j _. reflexivity.
+  - destruct Ha as [Hp Hr].
+    assert (HpL : p <= L) by (apply (Hb (p, m)); left; reflexivity).
+    rewrite (IH (p - 1) L).
+    + replace (L - prev) with ((p - 1 - prev) + (1 + (L - p))) by lia.
+      rewrite gen_split. replace (prev + 1 + (p - 1 - prev)) with p by lia.
+      rewrite (gen_empty (tx ((p, m) :: r)) (prev + 1) (p - 1 - prev)).
+      * replace (L - (p - 1)) with (1 + (L - p)) by lia. replace (p - 1 + 1) with p by lia.
+        cbn [Nat.add]. rewrite !gen_S. unfold unit_.
+        rewrite tx_cons, Nat.eqb_refl. rewrite (tx_small p r p Hr) by lia.
+        rewrite <- !app_assoc. cbn [app]. f_equal. f_equal. f_equal.
+        apply gen_ext. intros j Hj. rewrite tx_cons. destruct (Nat.eqb_spec p j) as [->|_]; [lia|reflexivity].
+      * intros j Hj. rewrite tx_cons. destruct (Nat.eqb_spec p j) as [->|_]; [lia|].
+        apply (tx_small p r j Hr). lia.
+    + apply (asc_from_weaken p); [lia|exact Hr].
+    + intros y Hy. apply Hb. right. exact Hy.
+    + lia.
+Qed.
+
+Lemma chain_text_pointwise dbs marks : forall fuel k m,
+  1 <= k -> m + 1 - k <= fuel ->
+  chain_text fuel k m 0 dbs marks = gen (fun j => bond_text j dbs marks) (k - 1) (m + 1 - k).
+Proof.
+  induction fuel as [|f IH]; intros k m Hk Hf; cbn [chain_text].
+  - replace (m + 1 - k) with 0 by lia. reflexivity.
+  - destruct (Nat.ltb_spec m k) as [Hlt|Hge].
+    + replace (m + 1 - k) with 0 by lia. reflexivity.
+    + replace (m + 1 - k) with (S (m + 1 - S k)) by lia. rewrite gen_S. unfold unit_.
+      destruct (Nat.eqb_spec k 0) as [->|_]; [lia|]. cbn [app].
+      rewrite (IH (S k) m) by lia. replace (S k - 1) with k by lia. replace (S (k - 1)) with k by lia.
+      rewrite <- !app_assoc. reflexivity.
+Qed.
+
+(* ------------------------------------------------------------------ the marks of isolated double bonds *)
+
+Definition closing (k : dbkind) : bool := match k with DbTrans => true | _ => false end.
+
+Fixpoint mark_iso (dbs : list (dbkind * nat)) (j : nat) : option bool :=
+  match dbs with
+  | [] => None
+  | (DbPlain, _) :: r => mark_iso r j
+  | (k, p) :: r => if Nat.eqb j (p - 1) then Some true else if Nat.eqb j (p + 1) then Some (closing k) else mark_iso r j
+  end.
+
+Lemma mark_iso_small dbs : forall lo j, isolated_from lo dbs -> j <= lo -> mark_iso dbs j = None.
+Proof.
+  induction dbs as [|[k p] r IH]; intros lo j H Hj; [reflexivity|].
+  destruct H as [Hp Hr].
+  destruct k; cbn [mark_iso];
+    try (destruct (Nat.eqb_spec j (p - 1)); [lia|]; destruct (Nat.eqb_spec j (p + 1)); [lia|]);
+    apply (IH (p + 1)); [exact Hr|lia|exact Hr|lia|exact Hr|lia].
+Qed.
+
+Lemma is_db_small dbs : forall lo j, isolated_from lo dbs -> j <= lo + 1 -> is_db j dbs = false.
+Proof.
+  induction dbs as [|[k p] r IH]; intros lo j H Hj; [reflexivity|].
+  destruct H as [Hp Hr]. unfold is_db. cbn [existsb]. fold (is_db j r).
+  destruct (Nat.eqb_spec p j); [lia|]. cbn [orb]. apply (IH (p + 1)); [exact Hr|lia].
+Qed.
+
+Lemma lookup_cons j k d l : lookup_mark j ((k, d) :: l) = if Nat.eqb j k then Some d else lookup_mark j l.
+Proof. reflexivity. Qed.
+
+Lemma marks_of_isolated dbs : forall lo acc j,
+  isolated_from lo dbs -> (forall i, lo < i -> lookup_mark i acc = None) ->
+  lookup_mark j (marks_of dbs acc) = match mark_iso dbs j with Some d => Some d | None => lookup_mark j acc end.
+Proof.
+  induction dbs as [|[k p] r IH]; intros lo acc j H Hacc; [reflexivity|].
+  destruct H as [Hp Hr].
+  assert (Hnone : lookup_mark (p - 1) acc = None) by (apply Hacc; lia).
+  destruct k; cbn [marks_of mark_iso]; rewrite ?Hnone.
+  - (* cis *)
+    rewrite (IH (p + 1)); [|exact Hr|].
+    + destruct (Nat.eqb_spec j (p - 1)) as [->|N1].
+      * rewrite (mark_iso_small r (p + 1)) by (assumption || lia).
+        rewrite !lookup_cons. destruct (Nat.eqb_spec (p - 1) (p + 1)); [lia|]. rewrite Nat.eqb_refl. reflexivity.
+      * destruct (Nat.eqb_spec j (p + 1)) as [->|N2].
+        -- rewrite (mark_iso_small r (p + 1)) by (assumption || lia).
+           rewrite !lookup_cons, Nat.eqb_refl. reflexivity.
+        -- destruct (mark_iso r j); [reflexivity|]. rewrite !lookup_cons.
+           destruct (Nat.eqb_spec j (p + 1)); [contradiction|]. destruct (Nat.eqb_spec j (p - 1)); [contradiction|]. reflexivity.
+    + intros i Hi. rewrite !lookup_cons. destruct (Nat.eqb_spec i (p + 1)); [lia|]. destruct (Nat.eqb_spec i (p - 1)); [lia|].
+      apply Hacc. lia.
+  - (* trans *)
+    rewrite (IH (p + 1)); [|exact Hr|].
+    + destruct (Nat.eqb_spec j (p - 1)) as [->|N1].
+      * rewrite (mark_iso_small r (p + 1)) by (assumption || lia).
+        rewrite !lookup_cons. destruct (Nat.eqb_spec (p - 1) (p + 1)); [lia|]. rewrite Nat.eqb_refl. reflexivity.
+      * destruct (Nat.eqb_spec j (p + 1)) as [->|N2].
+        -- rewrite (mark_iso_small r (p + 1)) by (assumption || lia).
+           rewrite !lookup_cons, Nat.eqb_refl. reflexivity.
+        -- destruct (mark_iso r j); [reflexivity|]. rewrite !lookup_cons.
+           destruct (Nat.eqb_spec j (p + 1)); [contradiction|]. destruct (Nat.eqb_spec j (p - 1)); [contradiction|]. reflexivity.
+    + intros i Hi. rewrite !lookup_cons. destruct (Nat.eqb_spec i (p + 1)); [lia|]. destruct (Nat.eqb_spec i (p - 1)); [lia|].
+      apply Hacc. lia.
+  - (* without geometry *)
+    apply (IH (p + 1)); [exact Hr|]. intros i Hi. apply Hacc. lia.
+Qed.
+
+Definition mark_text (o : option bool) : str :=
+  match o with Some true => s2l "/" | Some false => bs | None => [] end.
+
+Lemma tx_app l1 l2 j : tx (l1 ++ l2) j = match find (fun y => Nat.eqb (fst y) j) l1 with Some y => snd y | None => tx l2 j end.
+Proof.
+  induction l1 as [|[q m] r IH]; [reflexivity|]. cbn [app]. rewrite tx_cons. cbn [find fst].
+  destruct (Nat.eqb q j); [reflexivity|exact IH].
+Qed.
+
+Lemma tx_mods_of dbs : forall lo j,
+  isolated_from lo dbs ->
+  tx (mods_of dbs) j = if is_db j dbs then s2l "=" else mark_text (mark_iso dbs j).
+Proof.
+  induction dbs as [|[k p] r IH]; intros lo j H; [reflexivity|].
+  destruct H as [Hp Hr]. unfold mods_of. cbn [flat_map]. fold (mods_of r).
+  unfold is_db. cbn [existsb]. fold (is_db j r).
+  specialize (IH (p + 1) j Hr).
+  destruct k; cbn [mods_of_db app mark_iso]; rewrite ?tx_cons.
+  - destruct (Nat.eqb_spec (p - 1) j) as [E1|N1].
+    + subst j. destruct (Nat.eqb_spec p (p - 1)); [lia|]. rewrite (is_db_small r (p + 1)) by (assumption || lia).
+      cbn [orb]. rewrite Nat.eqb_refl. reflexivity.
+    + destruct (Nat.eqb_spec p j) as [E2|N2]; [reflexivity|].
+      destruct (Nat.eqb_spec (p + 1) j) as [E3|N3].
+      * subst j. rewrite (is_db_small r (p + 1)) by (assumption || lia). cbn [orb].
+        destruct (Nat.eqb_spec (p + 1) (p - 1)); [lia|]. rewrite Nat.eqb_refl. reflexivity.
+      * cbn [orb]. destruct (Nat.eqb_spec j (p - 1)); [lia|]. destruct (Nat.eqb_spec j (p + 1)); [lia|]. exact IH.
+  - destruct (Nat.eqb_spec (p - 1) j) as [E1|N1].
+    + subst j. destruct (Nat.eqb_spec p (p - 1)); [lia|]. rewrite (is_db_small r (p + 1)) by (assumption || lia).
+      cbn [orb]. rewrite Nat.eqb_refl. reflexivity.
+    + destruct (Nat.eqb_spec p j) as [E2|N2]; [reflexivity|].
+      destruct (Nat.eqb_spec (p + 1) j) as [E3|N3].
+      * subst j. rewrite (is_db_small r (p + 1)) by (assumption || lia). cbn [orb].
+        destruct (Nat.eqb_spec (p + 1) (p - 1)); [lia|]. rewrite Nat.eqb_refl. reflexivity.
+      * cbn [orb]. destruct (Nat.eqb_spec j (p - 1)); [lia|]. destruct (Nat.eqb_spec j (p + 1)); [lia|]. exact IH.
+  - destruct (Nat.eqb_spec p j) as [E2|N2]; [reflexivity|]. cbn [orb]. exact IH.
+Qed.
+
+(* the text in front of a carbon is the same in the specification and in the list of modifications *)
+Lemma bond_text_is_tx dbs j :
+  isolated_from 0 dbs -> bond_text j dbs (marks_of dbs []) = tx (mods_of dbs) j.
+Proof.
+  intro H. rewrite (tx_mods_of dbs 0 j H). unfold bond_text.
+  destruct (is_db j dbs); [reflexivity|].
+  rewrite (marks_of_isolated dbs 0 [] j H) by reflexivity.
+  destruct (mark_iso dbs j) as [[|]|]; reflexivity.
+Qed.
+
+(* ------------------------------------------------------------------ .replace("//", "/") changes nothing here *)
+
+Definition mark_like (x : str) : Prop := x = [] \/ x = s2l "/" \/ x = bs \/ x = s2l "=".
+
+Lemma rd_cons a t : chr_is a "/" = false -> replace_dslash (a :: t) = a :: replace_dslash t.
+Proof. intro H. destruct t as [|b r]; cbn [replace_dslash]; [reflexivity|]. rewrite H. reflexivity. Qed.
+
+Lemma rd_slash b r : chr_is b "/" = false -> replace_dslash ("/"%char :: b :: r) = "/"%char :: replace_dslash (b :: r).
+Proof. intro H. cbn [replace_dslash]. rewrite H, andb_false_r. reflexivity. Qed.
+
+Lemma replace_dslash_gen t : (forall j, mark_like (t j)) -> forall len a, replace_dslash (gen t a len) = gen t a len.
+Proof.
+  intros Ht. induction len as [|len IH]; intro a; [reflexivity|].
+  rewrite gen_S. unfold unit_. specialize (IH (S a)).
+  destruct (Ht a) as [E|[E|[E|E]]]; rewrite E; cbn [app s2l list_ascii_of_string bs].
+  - rewrite rd_cons by reflexivity. rewrite IH. reflexivity.
+  - rewrite rd_slash by reflexivity. rewrite rd_cons by reflexivity. rewrite IH. reflexivity.
+  - rewrite rd_cons by reflexivity. rewrite rd_cons by reflexivity. rewrite IH. reflexivity.
+  - rewrite rd_cons by reflexivity. rewrite rd_cons by reflexivity. rewrite IH. reflexivity.
+Qed.
+
+Lemma replace_dslash_start rest : replace_dslash (s2l "OC(=O)" ++ rest) = s2l "OC(=O)" ++ replace_dslash rest.
+Proof. cbn [s2l list_ascii_of_string app]. repeat (rewrite rd_cons by reflexivity). reflexivity. Qed.
+
+Lemma tx_mark_like dbs j : isolated_from 0 dbs -> mark_like (tx (mods_of dbs) j).
+Proof.
+  intro H. rewrite (tx_mods_of dbs 0 j H). unfold mark_like.
+  destruct (is_db j dbs); [right; right; right; reflexivity|].
+  destruct (mark_iso dbs j) as [[|]|]; cbn [mark_text]; auto.
+Qed.
+
+(* ------------------------------------------------------------------ the theorem *)
+
+Lemma max_pos_le l b : (forall y, In y l -> fst y <= b) -> max_pos l <= b.
+Proof.
+  induction l as [|y r IH]; intro H; cbn [max_pos fold_right]; [lia|].
+  fold (max_pos r). apply Nat.max_lub; [apply H; left; reflexivity|apply IH; intros z Hz; apply H; right; exact Hz].
+Qed.
+
+Lemma existsb_false {A} (f : A -> bool) l : (forall x, In x l -> f x = false) -> existsb f l = false.
+Proof.
+  induction l as [|x r IH]; intro H; [reflexivity|]. cbn [existsb]. rewrite (H x (or_introl eq_refl)), IH; [reflexivity|].
+  intros z Hz. apply H. right. exact Hz.
+Qed.
+
+(* UNBOUNDED: for every chain length and every non-empty list of isolated double bonds (cis, trans or without geometry)
+   that the specification accepts, the assembly half of parse_poly_carbon writes the text of the designation *)
+Theorem assemble_isolated n dbs :
+  dbs <> [] -> isolated_from 0 dbs -> acyl_ok (mkAcyl false false n dbs) = true ->
+  assemble n 0 [] true (Some (mods_of dbs)) = acyl_text (mkAcyl false false n dbs).
+Proof.
+  intros Hne Hiso Hok.
+  pose proof Hok as Hok'. unfold acyl_ok in Hok'. cbn [ac_iso ac_ante ac_n ac_dbs main_len branch_at] in Hok'.
+  repeat (apply andb_true_iff in Hok' as [Hok' ?]).
+  match goal with H : forallb _ dbs = true |- _ => rename H into Hall end.
+  assert (Hn : 2 <= n) by (apply Nat.leb_le; assumption).
+  rewrite forallb_forall in Hall.
+  assert (Hpos : forall y, In y (mods_of dbs) -> 1 <= fst y /\ fst y <= n - 1).
+  { intros y Hy. unfold mods_of in Hy. apply in_flat_map in Hy as [[k p] [Hd Hy]].
+    specialize (Hall _ Hd). cbn beta iota in Hall.
+    repeat (apply andb_true_iff in Hall as [Hall ?]).
+    destruct k; cbn [mods_of_db In] in Hy;
+      repeat match goal with H : (_ <=? _) = true |- _ => apply Nat.leb_le in H end;
+      repeat (destruct Hy as [<-|Hy]; [cbn [fst]; lia|]); destruct Hy. }
+  assert (Hdb : Forall (fun d => snd d + 1 <= n - 1 + 1) dbs).
+  { apply Forall_forall. intros [k p] Hd. specialize (Hall _ Hd). cbn beta iota in Hall.
+    repeat (apply andb_true_iff in Hall as [Hall ?]).
+    repeat match goal with H : (_ <=? _) = true |- _ => apply Nat.leb_le in H end. cbn [snd]. lia. }
+  unfold assemble.
+  destruct (Nat.ltb_spec n (0 + 1)) as [Hlt|_]; [lia|]. cbn [negb].
+  remember (mods_of dbs) as ms eqn:Ems. destruct ms as [|m0 ms'].
+  { exfalso. destruct dbs as [|[k p] r]; [contradiction|]. unfold mods_of in Ems. cbn [flat_map] in Ems.
+    destruct k; discriminate Ems. }
+  rewrite Ems. rewrite Ems in Hpos. clear Ems m0 ms'.
+  rewrite repeat_length.
+  destruct (Nat.ltb_spec (n - 0 - 1) (max_pos (mods_of dbs) - 1)) as [Hbad|_].
+  { pose proof (max_pos_le (mods_of dbs) (n - 1) (fun y Hy => proj2 (Hpos y Hy))). lia. }
+  rewrite existsb_false.
+  2:{ intros y Hy. destruct (Hpos y Hy) as [Hy1 _]. destruct (Nat.eqb_spec (fst y) 0); [lia|reflexivity]. }
+  unfold acyl_text. rewrite Hok. cbn [ac_iso ac_ante ac_n ac_dbs main_len branch_at].
+  f_equal. rewrite app_nil_r. replace (n - 0 - 1) with (n - 1) by lia. fold (cs (n - 1)).
+  rewrite (loop_on_isolated_double_bonds dbs (n - 1) Hiso Hdb).
+  rewrite (render_pointwise (mods_of dbs) 0 (n - 1)).
+  - rewrite replace_dslash_start. f_equal.
+    rewrite replace_dslash_gen by (intro j; apply tx_mark_like; exact Hiso).
+    rewrite (chain_text_pointwise dbs (marks_of dbs []) n 2 n) by lia.
+    replace (n - 1 - 0) with (n - 1) by lia. replace (n + 1 - 2) with (n - 1) by lia.
+    cbn [Nat.add Nat.sub]. symmetry. apply gen_ext. intros j _. apply bond_text_is_tx. exact Hiso.
+  - apply mods_of_ascending. exact Hiso.
+  - intros y Hy. apply (Hpos y Hy).
+  - lia.
+Qed.
+
+(* saturated chains: no group at all *)
+Theorem assemble_saturated n :
+  2 <= n -> assemble n 0 [] false None = acyl_text (mkAcyl false false n []).
+Proof.
+  intro Hn. unfold assemble. destruct (Nat.ltb_spec n (0 + 1)) as [Hlt|_]; [lia|]. cbn [negb].
+  unfold acyl_text, acyl_ok. cbn [ac_iso ac_ante ac_n ac_dbs main_len branch_at ascending_apart forallb andb].
+  destruct (Nat.leb_spec 2 n) as [_|Hbad]; [|lia]. cbn [andb]. f_equal.
+  rewrite app_nil_r. rewrite replace_dslash_start. f_equal. replace (n - 0 - 1) with (n - 1) by lia.
+  cbn [marks_of]. rewrite (chain_text_pointwise [] [] n 2 n) by lia. replace (n + 1 - 2) with (n - 1) by lia. cbn [Nat.sub].
+  rewrite (gen_empty (fun j => bond_text j [] [])) by (intros; reflexivity).
+  fold (cs (n - 1)). rewrite <- (gen_empty (fun _ => []) 0 (n - 1)) by (intros; reflexivity).
+  apply replace_dslash_gen. intro j. left. reflexivity.
+Qed.
+
+Example assemble_isolated_applies :
+  isolated_from 0 [(DbCis, 9); (DbCis, 12)] /\ acyl_ok (mkAcyl false false 18 [(DbCis, 9); (DbCis, 12)]) = true /\
+  option_map l2s (assemble 18 0 [] true (Some (mods_of [(DbCis, 9); (DbCis, 12)]))) = Some "OC(=O)CCCCCCC/C=C\C/C=C\CCCCC"%string.
+Proof. split; [cbn; lia|]. split; vm_compute; reflexivity. Qed.
